@@ -129,6 +129,11 @@ func cmdVerify(args []string) {
 			}
 		}
 		fmt.Printf("UNIT %s: %d/%d ok; trusted: %d\n", u.Name, nd, len(rs), len(res.Trusted))
+		if os.Getenv("GOVC_TRUSTED") != "" {
+			for _, t := range res.Trusted {
+				fmt.Printf("    trusted: %s\n", t)
+			}
+		}
 	})
 	fmt.Printf("done in %.1fs, %d problems\n", time.Since(t0).Seconds(), bad)
 	if bad > 0 {
